@@ -44,10 +44,6 @@ F = {
    what="a SeqCst load is never offered a SeqCst store once a clock-newer SeqCst store exists, although SeqCst accesses are documented to behave as acquire/release: an RC11-allowed outcome is never explored (rt/atomic.rs match_load_to_stores)",
    entries=[("C02", "missing", "cfg x=2 | T0: spawn 1; st 0 1 sc; st 0 2 sc; st 1 1 rlx; join 1 | T1: ld 1 rlx; ld 0 sc",
              "ok 0:0=- 0:1=- 0:2=- 0:3=- 0:4=- 1:0=v:1 1:1=v:1", "rc11-strong")]),
- "F5": dict(cls="unpark-misdirected",
-   what="unpark of a thread blocked in join/lock makes it runnable and loom's internal assertion fires (Thread::set_unparked wakes any blocked thread, rt/thread.rs)",
-   entries=[(p, "badverdict", "cfg  | T0: spawn 1; join 1 | T1: unpark 0", "notNotified") for p in ("C01", "C05", "C08")] +
-           [("C07", "badverdict", "cfg m=1 | T0: spawn 1; lock 0; unpark 1; join 1; unlock 0 | T1: lock 0; unlock 0", "expectedLock")]),
  "F7": dict(cls="chan-unbranched-empty-test",
    what="try_recv / Receiver::drop test emptiness without a branch point and send/recv are independent classes, so the order of a send and the test is never explored (sync/mpsc.rs, rt/mpsc.rs)",
    entries=[(p, "missing", "cfg q=1 | T0: spawn 1; tryrecv 0; join 1; droprx 0 | T1: send 0 5",
@@ -65,11 +61,9 @@ F = {
            [("C19", "controls-not-subset", "cfg m=2 c=1 | T0: spawn 1; lock 0; lock 1; unlock 1; unlock 0; skip; lock 0; lock 1; unlock 1; unlock 0; join 1 | T1: trylock 0; ifeq 1 v:1 2; crd 0; unlock 0; lock 0; cwr 0 1; unlock 0",
              "v:0", None, "cfg m=2 c=1 | T0: spawn 1; lock 0; lock 1; unlock 1; unlock 0; lock 0; lock 1; unlock 1; unlock 0; join 1 | T1: trylock 0; ifeq 1 v:1 2; crd 0; unlock 0; lock 0; cwr 0 1; unlock 0")]),
  "F10": dict(cls="arc-inspect-not-dependent",
-   what="strong_count/get_mut never observe a concurrent drop or clone: RefDec does not depend on an earlier Inspect (rt/arc.rs last_dependent_access)",
-   entries=[(p, "missing", "cfg  | T0: anew 0; aclone 0 1; spawn 1; acount 0; adrop 0; join 1 | T1: adrop 1",
-             "ok 0:0=- 0:1=- 0:2=- 0:3=v:1 0:4=v:1 0:5=- 1:0=v:0") for p in ("C01", "C11")] +
-           [("C15", "bound-not-subset", "cfg  | T0: anew 0; aclone 0 1; aclone 0 2; spawn 1; spawn 2; acount 0; acount 0; adrop 0; join 1; join 2 | T1: acount 1; agetmut 1; aunwrap 1; ifeq 1 err:0 1; adrop 1 | T2: acount 2; aunwrap 2; ifeq 1 err:0 1; adrop 2",
-             "ok 0:0=- 0:1=- 0:2=- 0:3=- 0:4=- 0:5=v:3 0:6=v:3 0:7=v:0 0:8=- 0:9=- 1:0=v:1 1:1=v:1 1:2=ok:0 2:0=v:2 2:1=err:0 2:3=v:0")]),
+   what="strong_count/get_mut still miss some orders with a concurrent drop: the Arc keeps ONE last-inspection slot, so a thread's own strong_count overwrites another thread's, and its following drop is compared with its own inspection only (rt/arc.rs last_ref_inspect; the same single-slot weakness as F1). (That a decrement did not depend on inspections at all was repaired in d0747ef.)",
+   entries=[(p, "missing", "cfg  | T0: anew 0; aclone 0 1; spawn 1; acount 0; adrop 0; join 1 | T1: acount 1; adrop 1",
+             "ok 0:0=- 0:1=- 0:2=- 0:3=v:1 0:4=v:1 0:5=- 1:0=v:2 1:1=v:0") for p in ("C01", "C11")]),
  "F11": dict(cls="unstarted-closure-dropped-outside",
    what="the process aborts instead of unwinding to the caller of loom::model when an iteration fails while a spawned thread that has not started yet still owns a loom handle in its closure (`let a2 = a.clone(); thread::spawn(move || use(a2)); assert!(false)`): the closure is dropped with the scheduler's coroutine, outside the execution context (rt/scheduler.rs)",
    entries=[("C06", "abort", "cfg unwind=1 | T0: anew 0; aclone 0 1; spawnown 1 1; panic | T1: adrop 1", "abort")]),
@@ -90,16 +84,21 @@ F = {
              "ok 0:0=- 0:1=- 0:2=- 0:3=- 0:4=- 0:5=- 1:0=- 1:1=- 1:2=- 1:3=v:0 1:4=-") for p in ("C08",)]),
  "F17": dict(cls="unpark-edge-without-park",
    what="unpark transfers the unparker's causality to the target at once, although nothing is ordered unless a park consumes the token: a data race is hidden (Thread::unpark, rt/thread.rs)",
-   entries=[(p, "missed_failure", "cfg c=1 | T0: spawn 1; cwr 0 1; unpark 1; join 1 | T1: crd 0", "causality") for p in ("C01", "C04", "C08")]),
+   entries=[(p, "missed_failure", "cfg c=1 | T0: spawn 1; cwr 0 1; unpark 1; join 1 | T1: crd 0", "causality") for p in ("C01", "C04", "C08")] +
+           # with the race hidden the run goes on and reports what comes next: a deadlock the reference never reaches
+           [("C05", "badverdict", "cfg c=1 | T0: spawn 1; cwr 0 1; unpark 1; park; join 1 | T1: cwr 0 2", "deadlock")]),
  "F19": dict(cls="park-unbranched-token-test",
    what="thread::park tests the token without a branch point and unpark is not a branch point, so the order of an unpark and the token test is explored only when another branch point happens to separate them: outcomes / deadlocks of the other order are never explored (rt/mod.rs park, thread.rs unpark)",
    entries=[(p, "missed_failure", "cfg c=1 | T0: spawn 1; park; crd 0; park; join 1 | T1: unpark 0; unpark 0", "deadlock") for p in ("C01", "C05", "C08")]),
- "F18": dict(cls="unpark-token-cleared",
-   what="a pending park token is lost when its thread is blocked by another thread's lock acquisition and woken again: the token lives in State::Runnable { unparked } and set_blocked/set_runnable overwrite it (Mutex::post_acquire, RwLock::post_acquire_*) -> false deadlock. (The other way to lose it - a release waking a thread whose stale `operation` names the object - was repaired in 0b04412.)",
-   entries=[(p, "badverdict", "cfg m=1 | T0: spawn 1; unpark 1; lock 0; unlock 0; join 1 | T1: lock 0; unlock 0; park", "deadlock") for p in ("C01", "C05", "C08")]),
 }
 
 FIXED = [
+ ("C11", "d0747ef", "F10a strong_count never observed a concurrent drop: RefDec did not depend on the last Inspect; witness cfg  | T0: anew 0; aclone 0 1; spawn 1; acount 0; adrop 0; join 1 | T1: adrop 1 (missing outcome: acount 0 = 1)"),
+ ("C01", "d0747ef", "F10a same witness (reference outcome never explored)"),
+ ("C08", "e4710d6", "F5/F6/F18 unpark made ANY blocked thread runnable (a thread blocked in join / lock / recv hit an internal assertion or ran on) and the park token lived in State::Runnable so that blocking on a lock in between lost it (false deadlock); witnesses cfg  | T0: spawn 1; join 1 | T1: unpark 0 and cfg m=1 | T0: spawn 1; unpark 1; lock 0; unlock 0; join 1 | T1: lock 0; unlock 0; park"),
+ ("C05", "e4710d6", "F5/F18 false deadlock / internal assertion through a misdirected unpark or a lost park token; same witnesses"),
+ ("C01", "e4710d6", "F5/F18 same witnesses (reference outcome never reached)"),
+ ("C07", "e4710d6", "F5 unpark of a thread blocked on a mutex made it runnable: 'expected to be able to acquire lock'; witness cfg m=1 | T0: spawn 1; lock 0; unpark 1; join 1; unlock 0 | T1: lock 0; unlock 0"),
  ("C17", "e931437", "F20 JoinHandle::join returned before the joined thread's thread-local destructors had run (after join, the effect of a destructor was not visible yet); witness cfg tlsdtor=1 x=1 | T0: spawn 1; ld 0 rlx; join 1; ld 0 rlx | T1: tls 0 (forbidden outcome: the load after the join reads 0)"),
  ("C08", "0b04412", "F18a a release (Mutex::release_lock, RwLock::unlock_threads, Channel::send) reset every thread whose stale `operation` named the object, discarding a pending park token -> false deadlock; witness cfg l=1 | T0: spawn 1; unpark 1; rd 0; unrd 0; join 1 | T1: rd 0; unrd 0; park"),
  ("C05", "0b04412", "F18a false deadlock: park token discarded by a release through a stale `operation`; witness cfg l=1 | T0: spawn 1; unpark 1; rd 0; unrd 0; join 1 | T1: rd 0; unrd 0; park"),
